@@ -214,7 +214,9 @@ class Taint:
                                 yield site('K3-cindex', last, bb, ti, tyi)
                     elif last == 'range' and ('BTreeMap' in r or 'BTreeSet' in r):
                         ta, ty = arg_info(1)
-                        if ta is not None and self.tainted(b, ta):
+                        # BTreeMap::range panics on start > end (or an empty Excluded..Excluded): a one-sided range type has no such pair
+                        one_sided = strip_generics(ty or '').rsplit('::', 1)[-1] in ('RangeFrom', 'RangeTo', 'RangeToInclusive', 'RangeFull')
+                        if ta is not None and self.tainted(b, ta) and not one_sided:
                             yield site('K4-btree-range', last, bb, ta, ty)
                     elif last in UNWRAP_FNS and ('Option' in r or 'Result' in r):
                         ta, ty = arg_info(0)
